@@ -285,10 +285,28 @@ package core
 //@   trusted
 //@   ownpackage
 //@   modifies *
-//@ func rebuildRunningEventFilter
+// The rebuild anchors on the most recent persisted window - but only on one that ENDS at or below
+// the head. A persisted window that reaches beyond the head was written before a reorg took the
+// head back into it (defect F19): taking it for complete positioned the filter a whole window
+// ahead of the chain, and the next block could not be stored any more.
+//@ extern func errors.Is
+//@ func GetAggregatedBloomFilter
 //@   trusted
 //@   ownpackage
+//@ func NewAggregatedFilter
+//@   trusted
+//@   ownpackage
+//@ func rebuildRunningEventFilter
+//@   props C09 C05
+//@   arith int
+//@   nosafe
+//@   ownpackage
+//@   requires latest < 1<<62
 //@   modifies *
+//@   loop 1: invariant window: rangeStartAligned % 8192 == 0 && lastStoredFilterRangeEnd == rangeStartAligned + 8191 && rangeStartAligned <= latest
+//@   callsite NewRunningEventFilterHot@*: resumes_no_later_than_the_block_after_the_head: nextBlock <= latest + 1
+//@   callsite NewAggregatedFilter@*: window_of_the_next_block: fromBlock <= latest + 1
+//@   callsite fillRunningEventFilter@*: fills_up_to_the_head: $2 <= latest + 1 && $3 == latest
 //@ func InitializeRunningEventFilter
 //@   props C09
 //@   arith int
